@@ -91,7 +91,8 @@ PROPS = {
     'C05': dict(
         standins=['encoders_api'],
         units_quick=['encode', 'codec'], units_thorough=['encode', 'codec', 'recover', 'order', 'consts'], timeout=1800,
-        claim="the four encoders (real bodies of EncodedPoint::from_affine and empty for G1/G2, compressed/uncompressed) return exactly the byte strings enc_* of "
+        claim="the byte accessors AsRef / AsMut<[u8]> of the four encoding newtypes (real bodies) hand out the whole array in order (length 96/48/192/96; writes through as_mut land in the encoding); "
+              "the four encoders (real bodies of EncodedPoint::from_affine and empty for G1/G2, compressed/uncompressed) return exactly the byte strings enc_* of "
               "specs/encode.vrs, written from the property statement: fixed lengths 96/48/192/96 (array types), big-endian 48-byte coordinates, c1 before c0, "
               "infinity = flag 0x40 and all other bits zero, compression flag 0x80, sort flag 0x20 set iff y > -y (canonical integer order; Fq2 lexicographic with c1 first); "
               "every index and unwrap() is proved safe; CurveAffine::into_compressed / into_uncompressed (trait defaults written out at G1Affine / G2Affine) return the same byte strings. Proved lemmas over enc_* and the decoding functions dec_* that the real decoders are proved equal to (unit codec, C04): "
